@@ -3457,7 +3457,7 @@ func c03R18(c *Ctx, r *Report) {
 			}
 			if f == bagAdd.Obj {
 				hit = true
-			} else if hf := c.FnOf(f); hf != nil && hf.Decl != nil && hf.Decl.Body != nil && nodeCalls(hf.Info(), hf.Decl.Body, bagAdd.Obj) != nil && f.Pkg() == fn.Obj.Pkg() && f != fn.Obj {
+			} else if f.Pkg() == fn.Obj.Pkg() && f != fn.Obj && reachesAdd(c, f, bagAdd.Obj, 0) {
 				hit = true
 			}
 			return true
@@ -3609,7 +3609,7 @@ func c10R10(c *Ctx, r *Report) {
 			}
 			if f == bagAdd.Obj {
 				reports = true
-			} else if hf := c.FnOf(f); hf != nil && hf.Decl != nil && hf.Decl.Body != nil && f.Pkg() == fn.Obj.Pkg() && f != fn.Obj && nodeCalls(hf.Info(), hf.Decl.Body, bagAdd.Obj) != nil {
+			} else if f.Pkg() == fn.Obj.Pkg() && f != fn.Obj && reachesAdd(c, f, bagAdd.Obj, 0) {
 				for _, a := range cl.Args {
 					if strings.Contains(exprStr(a), ".Len") {
 						reports = true
@@ -3621,4 +3621,25 @@ func c10R10(c *Ctx, r *Report) {
 	}
 	r.Check(reports, rule, fn.Name(), "a length that is not a constant is reported", c.pos(cc.Pos()),
 		"an array type whose length does not evaluate silently becomes a dynamic array: `const N := 2; let a: [N]i32 = [1, 2, 3];`, `[1+1]i32` and `[-1]i32` accept three elements")
+}
+
+// reachesAdd: f calls add directly or through same-package helpers (depth <= 2).
+func reachesAdd(c *Ctx, f, add *types.Func, depth int) bool {
+	hf := c.FnOf(f)
+	if hf == nil || hf.Decl == nil || hf.Decl.Body == nil || depth > 2 {
+		return false
+	}
+	for _, cl := range callsIn(hf.Decl.Body, true) {
+		g := callee(hf.Info(), cl)
+		if g == nil {
+			continue
+		}
+		if g == add {
+			return true
+		}
+		if g.Pkg() == f.Pkg() && g != f && reachesAdd(c, g, add, depth+1) {
+			return true
+		}
+	}
+	return false
 }
